@@ -14,5 +14,5 @@ def constsLine : String :=
 
 def main (args : List String) : IO UInt32 := do
   match args with
-  | ["kll"] => runDriver ({} : Kll.St) (Kll.stepLine kllParams kllErr constsLine)
+  | ["kll"] => runDriver ({} : Kll.St) (Kll.stepLine kllParams kllErr Kll.genFlags constsLine)
   | _ => IO.eprintln "usage: dsmodel_kll kll"; return 2
